@@ -526,12 +526,22 @@ def c20(ctx):
 def c11(ctx):
     consts = dict(MaxN=4 if ctx.quick() else 6)
     cases = gen(ctx, "Gen_C11", cfgtext(invariants=["Emit"], constants=consts), timeout=3000, heap="8g")
-    events = harness(ctx, ["exec", "memflow"], cases)
+    # keys that use the library's COSE_Sign path themselves before they look at their input (intact messages, matching verifiers)
+    cases += reentrant([c for c in cases if c["flow"] == "verify" and c["n"] > 0 and all(x == "" for x in c["c"]) and c["vl"] == list(range(1, c["n"] + 1))])
+    # the programs with panicking keys run in a process of their own: a panic in a goroutine that the library started cannot be contained,
+    # and must not take the other observations with it (those programs are then inconclusive)
+    pan = [c for c in cases if c["flow"] == "panickey"]
+    events = harness(ctx, ["exec", "memflow"], [c for c in cases if c["flow"] != "panickey"])
+    try:
+        events += harness(ctx, ["exec", "memflow"], pan)
+    except Infra as ex:
+        ctx.notes["panicking_key_programs_aborted_the_process"] = str(ex)[:300]
+        events += [dict(c, op="memflow", crashed=True, obs=[]) for c in pan]
     rejects = judge(ctx, "Trace_C11", events)
     events, rejects = with_sg_model(ctx, "C11", events, rejects)
     return report(ctx, events, rejects,
                   nontrivial=lambda e: "acts" in e or e["n"] > 0,
-                  key=lambda e: json.dumps(e["acts"]) if "acts" in e else json.dumps([e["flow"], e["n"], e.get("dec"), e.get("vl"), e.get("c"), e.get("hole"), e.get("j"), e.get("what"), e.get("nc"), e.get("pos")]),
+                  key=lambda e: json.dumps(e["acts"]) if "acts" in e else json.dumps([e["flow"], e["n"], e.get("dec"), e.get("vl"), e.get("c"), e.get("hole"), e.get("j"), e.get("what"), e.get("nc"), e.get("pos"), e.get("reenter")]),
                   rule="TLC enumerates COSE_Sign programs: n = 0..N signers of three algorithm families, signing, serialisation, optional wire round trip, "
                        "every subset of slots corrupted (garbage / emptied / overwritten with another slot's signature), verification with every permutation "
                        "class of verifiers and counts n-1, n, n+1; wire images with zero or empty signatures; symbolic signers/verifiers record every call; TLC "
